@@ -31,6 +31,73 @@ struct PairCase {
     ont: Ontology,
     obs: Obs,
     model: Model,
+    /// when set, pair queries are restricted to these terms (real-scale ontology)
+    subset: Option<Vec<u32>>,
+}
+
+impl PairCase {
+    fn ids(&self) -> Vec<u32> {
+        match &self.subset {
+            Some(s) => s.clone(),
+            None => self.obs.terms.keys().copied().collect(),
+        }
+    }
+}
+
+/// the complete HPO shipped as tests/ontology.hpo, with a sample of ~36 terms (random terms plus
+/// ancestors / descendants / siblings of some of them) for the pair queries
+fn real_pair_case(rng: &mut Rng, out: &mut CaseOut) -> Option<PairCase> {
+    let (_v, view, bytes) = match shipped_facts("ontology.hpo") {
+        Ok(x) => x,
+        Err(e) => {
+            out.inconclusive = Some(e);
+            return None;
+        }
+    };
+    let ont = match crate::drive::from_bytes(&bytes) {
+        Ok(o) => o,
+        Err(e) => {
+            out.violate("C08", "shipped_file_rejected", format!("{e}"));
+            return None;
+        }
+    };
+    let model = Model::new(&view, true);
+    let all: Vec<u32> = model.ids.iter().copied().collect();
+    let mut sample: BTreeSet<u32> = BTreeSet::new();
+    sample.insert(1);
+    sample.insert(118);
+    while sample.len() < 22 {
+        sample.insert(*rng.pick(&all));
+    }
+    for t in sample.clone().iter().take(8) {
+        let anc: Vec<u32> = model.anc[t].iter().copied().collect();
+        if !anc.is_empty() {
+            sample.insert(*rng.pick(&anc));
+        }
+        let desc: Vec<u32> = model.desc[t].iter().copied().collect();
+        if !desc.is_empty() {
+            sample.insert(*rng.pick(&desc));
+        }
+        // a sibling
+        if let Some(p) = model.parents[t].iter().next() {
+            let sib: Vec<u32> = model.children[p].iter().copied().collect();
+            sample.insert(*rng.pick(&sib));
+        }
+    }
+    let ids: Vec<u32> = view.terms.iter().map(|t| t.id).collect();
+    let obs = crate::observe::walk(&ont, &ids, &mut out.events);
+    out.bucket("shipped/ontology.hpo");
+    let sc = StateCase {
+        view: crate::facts::FactSet::default(),
+        facts: crate::facts::FactSet::default(),
+        path: PathKind::BytesV3,
+        order: crate::drive::OrderMode::AsGiven,
+        shape: "complete HPO (tests/ontology.hpo)".into(),
+        id_mode: "real".into(),
+    };
+    let subset: Vec<u32> = sample.into_iter().collect();
+    out.case = Json::obj().set("shipped_file", Json::s("ontology.hpo")).set("sampled_terms", Json::arr_u32(&subset));
+    Some(PairCase { sc, ont, obs, model, subset: Some(subset) })
 }
 
 fn set_of(v: &[u32]) -> BTreeSet<u32> {
@@ -84,7 +151,7 @@ impl PairMonitor {
     // -------------------------------------------------------------------------------- C11
     fn c11(&self, pc: &PairCase, out: &mut CaseOut) {
         let m = &pc.model;
-        let ids: Vec<u32> = m.ids.iter().copied().collect();
+        let ids: Vec<u32> = pc.ids();
         let up: BTreeMap<u32, BTreeMap<u32, usize>> = ids.iter().map(|t| (*t, m.up_dist(*t))).collect();
         let is_edge = |x: u32, y: u32| m.parents[&x].contains(&y) || m.parents[&y].contains(&x);
         let mut dist_seen: BTreeMap<(u32, u32), Option<usize>> = BTreeMap::new();
@@ -223,7 +290,8 @@ impl PairMonitor {
 
     // -------------------------------------------------------------------------------- C12 (B)
     fn c12b(&self, pc: &PairCase, out: &mut CaseOut) {
-        let ids: Vec<u32> = pc.obs.terms.keys().copied().collect();
+        let ids: Vec<u32> = pc.ids();
+        let all_ids: Vec<u32> = pc.obs.terms.keys().copied().collect();
         // constructor FromIterator<HpoTerm> (arbitrary iteration order of the ontology, with repeats)
         // and HpoGroup::terms must agree with the id set
         {
@@ -235,8 +303,8 @@ impl PairMonitor {
             });
             match r {
                 Ok((g, back)) => {
-                    out.check(g == ids, "C12", "group_from_term_iterator", || format!("collecting the ontology's terms (with repeats) into an HpoGroup gives {g:?}, the id set is {ids:?}"));
-                    out.check(back == ids, "C12", "group_terms_iterator", || format!("HpoGroup::terms yields {back:?} for {ids:?}"));
+                    out.check(g == all_ids, "C12", "group_from_term_iterator", || format!("collecting the ontology's terms (with repeats) into an HpoGroup gives {} ids, the id set has {}", g.len(), all_ids.len()));
+                    out.check(back == all_ids, "C12", "group_terms_iterator", || format!("HpoGroup::terms yields {} terms for {} ids", back.len(), all_ids.len()));
                 }
                 Err(p) => out.violate("C12", "panic:group_from_term_iterator", format!("{}", p.message)),
             }
@@ -343,7 +411,7 @@ impl PairMonitor {
     #[allow(clippy::too_many_lines)]
     fn c04(&self, pc: &PairCase, out: &mut CaseOut) {
         let obs = &pc.obs;
-        let ids: Vec<u32> = obs.terms.keys().copied().collect();
+        let ids: Vec<u32> = pc.ids();
         let up: BTreeMap<u32, BTreeMap<u32, usize>> = ids.iter().map(|t| (*t, up_dist_obs(obs, *t))).collect();
         let tol = 1e-4;
         let aplus = |t: &TermObs| {
@@ -580,6 +648,7 @@ impl Monitor for PairMonitor {
         if self.prop == "C12" {
             v.extend(super::group::plan(tier));
         }
+        v.push("real:0".to_string());
         v.extend(catalogue_labels());
         if self.prop == "C11" {
             for i in 0..12 {
@@ -706,7 +775,12 @@ impl Monitor for PairMonitor {
             let model = Model::new(&sc.view, false);
             let ids: Vec<u32> = sc.view.terms.iter().map(|t| t.id).collect();
             let obs = crate::observe::walk(&ont, &ids, &mut out.events);
-            PairCase { sc, ont, obs, model }
+            PairCase { sc, ont, obs, model, subset: None }
+        } else if label.starts_with("real") {
+            match real_pair_case(&mut rng, &mut out) {
+                Some(pc) => pc,
+                None => return out,
+            }
         } else {
             // keep pairwise cases moderate: regenerate with a smaller bound if needed
             let mut lbl = label.to_string();
@@ -728,15 +802,20 @@ impl Monitor for PairMonitor {
                     let model = Model::new(&sc.view, sc.path.has_defaults());
                     let ids: Vec<u32> = sc.view.terms.iter().map(|t| t.id).collect();
                     let obs = crate::observe::walk(&ont, &ids, &mut out.events);
-                    break PairCase { sc, ont, obs, model };
+                    break PairCase { sc, ont, obs, model, subset: None };
                 }
                 tries += 1;
                 lbl = format!("{label}#{tries}");
             }
         };
-        out.sig = crate::rng::hash_u64s(&[pc.sc.facts.content_hash(), pc.sc.path as u64, pc.sc.order as u64]);
-        out.nontrivial = pc.sc.view.terms.len() >= 4 && pc.sc.view.edges.len() >= 3;
-        out.case = case_json(&pc.sc);
+        if pc.subset.is_some() {
+            out.sig = crate::rng::hash_u64s(&pc.ids().iter().map(|x| u64::from(*x)).collect::<Vec<_>>());
+            out.nontrivial = true;
+        } else {
+            out.sig = crate::rng::hash_u64s(&[pc.sc.facts.content_hash(), pc.sc.path as u64, pc.sc.order as u64]);
+            out.nontrivial = pc.sc.view.terms.len() >= 4 && pc.sc.view.edges.len() >= 3;
+            out.case = case_json(&pc.sc);
+        }
         out.bucket(&format!("path/{}", pc.sc.path.name()));
         structural_buckets(&pc.model, &mut out);
         // a panic inside the walk is not this monitor's business, but it would make pair queries meaningless
@@ -748,7 +827,7 @@ impl Monitor for PairMonitor {
             "C12" => self.c12b(&pc, &mut out),
             _ => self.c04(&pc, &mut out),
         }
-        let n = pc.obs.terms.len() as u64;
+        let n = pc.ids().len() as u64;
         out.bucket_n("ordered_pairs", n * n);
         out
     }
